@@ -277,29 +277,47 @@ Definition resolves (scope : list (list name)) (e : expr) : bool :=
 Fixpoint nodupb (l : list name) : bool :=
   match l with [] => true | x :: t => negb (mem x t) && nodupb t end.
 
-(* scope = the record schemas visible from outside (innermost first) *)
-Fixpoint wf_planb (scope : list (list name)) (p : plan) : bool :=
+Definition disjointb (a b : list name) : bool := forallb (fun n => negb (mem n b)) a.
+
+(* the shape invariant: the schema stored in a node agrees with its children, as Typecheck builds it *)
+Fixpoint shapeb (p : plan) : bool :=
+  match p with
+  | PDatasource _ _ _ _ policy _ => policy =? 0   (* a datasource that rejects push-down: every one in the tree *)
+  | PTvf _ _ _ => true
+  | PDistinct s src => schema_eqb s (schema_of src) && shapeb src
+  | PFilter s _ src => schema_eqb s (schema_of src) && shapeb src
+  | PGroupBy s keys aggs aggargs _ _ src =>
+      Nat.eqb (length (sf s)) (length keys + length aggs) && Nat.eqb (length aggs) (length aggargs) && shapeb src
+  | PStreamJoin s lk rk l r =>
+      list_eqb name_eqb (sf s) (fields_of l ++ fields_of r) && Nat.eqb (length lk) (length rk) && shapeb l && shapeb r
+  | PLookupJoin s src joined =>
+      list_eqb name_eqb (sf s) (fields_of src ++ fields_of joined) && disjointb (fields_of src) (fields_of joined) &&
+      shapeb src && shapeb joined
+  | PMap s es src => Nat.eqb (length (sf s)) (length es) && shapeb src
+  | PUnnest s f src => list_eqb name_eqb (sf s) (fields_of src) && mem f (sf s) && shapeb src
+  | POst s _ _ _ src => schema_eqb s (schema_of src) && shapeb src
+  end.
+Definition shape_ok (p : plan) : Prop := shapeb p = true.
+
+(* every variable resolves; scope = the record schemas visible from outside (innermost first) *)
+Fixpoint resolves_planb (scope : list (list name)) (p : plan) : bool :=
   match p with
   | PDatasource s _ _ _ _ preds => forallb (resolves (sf s :: scope)) preds
-  | PDistinct s src => schema_eqb s (schema_of src) && wf_planb scope src
-  | PFilter s e src => schema_eqb s (schema_of src) && resolves (fields_of src :: scope) e && wf_planb scope src
-  | PGroupBy s keys aggs aggargs _ _ src =>
-      Nat.eqb (length (sf s)) (length keys + length aggs) && Nat.eqb (length aggs) (length aggargs) &&
+  | PDistinct _ src => resolves_planb scope src
+  | PFilter _ e src => resolves (fields_of src :: scope) e && resolves_planb scope src
+  | PGroupBy _ keys _ aggargs _ _ src =>
       forallb (resolves (fields_of src :: scope)) keys && forallb (resolves (fields_of src :: scope)) aggargs &&
-      wf_planb scope src
-  | PStreamJoin s lk rk l r =>
-      list_eqb name_eqb (sf s) (fields_of l ++ fields_of r) && Nat.eqb (length lk) (length rk) &&
+      resolves_planb scope src
+  | PStreamJoin _ lk rk l r =>
       forallb (resolves (fields_of l :: scope)) lk && forallb (resolves (fields_of r :: scope)) rk &&
-      wf_planb scope l && wf_planb scope r
-  | PLookupJoin s src joined =>
-      list_eqb name_eqb (sf s) (fields_of src ++ fields_of joined) &&
-      wf_planb scope src && wf_planb (fields_of src :: scope) joined
-  | PMap s es src =>
-      Nat.eqb (length (sf s)) (length es) && forallb (resolves (fields_of src :: scope)) es && wf_planb scope src
-  | PUnnest s f src => list_eqb name_eqb (sf s) (fields_of src) && mem f (sf s) && wf_planb scope src
-  | POst s keys _ limit src =>
-      schema_eqb s (schema_of src) && forallb (resolves (fields_of src :: scope)) keys &&
-      match limit with Some e => resolves scope e | None => true end && wf_planb scope src
+      resolves_planb scope l && resolves_planb scope r
+  | PLookupJoin _ src joined => resolves_planb scope src && resolves_planb (fields_of src :: scope) joined
+  | PMap _ es src => forallb (resolves (fields_of src :: scope)) es && resolves_planb scope src
+  | PUnnest _ _ src => resolves_planb scope src
+  | POst _ keys _ limit src =>
+      forallb (resolves (fields_of src :: scope)) keys &&
+      match limit with Some e => resolves scope e | None => true end && resolves_planb scope src
   | PTvf _ _ args => forallb (fun a => match snd a with TAExpr e => resolves scope e | TADesc _ => true end) args
   end.
+Definition wf_planb (scope : list (list name)) (p : plan) : bool := shapeb p && resolves_planb scope p.
 Definition wf_plan (p : plan) : Prop := wf_planb [] p = true.
